@@ -1,9 +1,10 @@
 """C16 -- array-like objects have value semantics under structural operations
 (DESIGN.md section 4, C16; as-built notes in design.d/C16.md)."""
+import glob
 import json
 import os
 
-from vlib import BUILD, Check, fhex, run_cases, run_impl
+from vlib import BUILD, VERIF, Check, fhex, run_cases, run_impl
 
 PROP = "C16"
 
@@ -188,7 +189,7 @@ def exhaustive_cases():
 
 def run(tier, seed):
     ck = Check(PROP, tier, seed)
-    ck.trusted += ["hand-written faithful model coq/Model/C16.v (tied to /repo by the correspondence only)",
+    ck.trusted += ["hand-written faithful model coq/Model/C16Model.v (tied to /repo by the correspondence only)",
                    "FInst float evaluator (correspondence sensitivity only)",
                    "numpy indexing/reshape/transpose on an integer index array is the oracle's reference"]
     ck.assumptions += ["NumPy view/aliasing semantics are not modelled: the model is functional; operand mutation is "
@@ -199,10 +200,22 @@ def run(tier, seed):
         return ck.finish()
     ck.step_prove([], "Props/C16.v", extra=["Model/C16Model.vo"])
     n = 300 if tier == "quick" else 4000
+    # corpus first (minimised regression cases), then the generated cases
+    corpus = []
+    for f in sorted(glob.glob(os.path.join(VERIF, "corpus", PROP, "*.json"))):
+        corpus += json.load(open(f))
+    cases, fails = [], []
+    if corpus:
+        co = run_impl("c16.py", {"seed": 0, "n": 0, "only": corpus})
+        for c in co["cases"]:
+            c["tag"] = "corpus"
+        cases += co["cases"]
+        fails += co["fails"]
     out = run_impl("c16.py", {"seed": seed, "n": n})
-    cases = out["cases"]
-    fails = list(out["fails"])
+    cases += out["cases"]
+    fails += list(out["fails"])
     strata = dict(out["strata"])
+    strata["corpus"] = len(corpus)
     if tier != "quick":
         # bounded-exhaustive: all 6 classes x 6 shapes x 110 programs of length <= 2
         ex = run_impl("c16.py", {"seed": seed + 1, "n": 0, "exhaustive": exhaustive_cases()})
